@@ -6,9 +6,11 @@ import (
 	"fmt"
 	"runtime"
 	"strings"
+	"sync"
 
 	"github.com/tigerwill90/fox"
 
+	"verifharness/fx"
 	"verifharness/hist"
 	"verifharness/mc"
 )
@@ -66,6 +68,210 @@ type Case struct {
 	Siblings bool      `json:"siblings,omitempty"`
 	Pool     string    `json:"pool,omitempty"`
 	Path     []hist.Op `json:"path"`
+	// multi-operation transaction cases (part bodies): Path registers the seed directly, Body runs
+	// inside one write transaction ended by Commit or Abort
+	Body   []hist.Op `json:"body,omitempty"`
+	Commit bool      `json:"commit,omitempty"`
+}
+
+func PoolNamed(name string, quick bool) *hist.Pool {
+	switch name {
+	case "siblings":
+		return SiblingPool()
+	case "methods":
+		return MethodPool()
+	case "nested":
+		return NestPool()
+	case "prefixes-3-methods":
+		return PoolFor(false)
+	}
+	return PoolFor(quick)
+}
+
+// evalBody runs one multi-operation write transaction from a seed and checks, without ever calling
+// Txn.Iter or Txn.Snapshot in between (they reset the transaction's node cache): every call's result
+// against the model, the transaction's own reads (Has/Route/Len) after every call, the router's
+// complete read API still showing the seed while the transaction is open, and after the ending the
+// complete read API showing the seed (Abort) or the model's final state (Commit).
+func evalBody(p *hist.Pool, cs Case) (class, msg string) {
+	f := hist.Replay(cs.Path)
+	before := hist.ModelOf(cs.Path)
+	cur := before
+	desc := func() string {
+		end := "Abort"
+		if cs.Commit {
+			end = "Commit"
+		}
+		return fmt.Sprintf("seed %s, transaction [%s] ended by %s", before.String(), render(cs.Body), end)
+	}
+	txn := f.Txn(true)
+	defer txn.Abort()
+	for i, o := range cs.Body {
+		wantOut, after := hist.ModelApply(cur, o)
+		out, pv := hist.ApplyIn(f, txn, o)
+		if pv != "" {
+			return "panic", fmt.Sprintf("operation %d (%s) panicked: %s: %s", i, o, pv, desc())
+		}
+		if !sameOut(out, wantOut) {
+			return "wrong-result", fmt.Sprintf("operation %d (%s) returned %s, model says %s: %s", i, o, out, wantOut, desc())
+		}
+		cur = after
+		// the transaction reads its own writes (lookups only)
+		if txn.Len() != len(cur) {
+			return "txn-view", fmt.Sprintf("after operation %d (%s) Txn.Len() = %d, model says %d: %s", i, o, txn.Len(), len(cur), desc())
+		}
+		for _, m := range p.Methods {
+			for _, pt := range p.Patterns {
+				v, ok := cur[hist.Key{Method: m, Pattern: pt}]
+				rt := txn.Route(m, pt)
+				if txn.Has(m, pt) != ok || (rt != nil) != ok || (ok && fx.RouteVer(rt) != v) {
+					return "txn-view", fmt.Sprintf("after operation %d (%s) the transaction reads %s %s as has=%v version=%d, model says present=%v version=%d: %s", i, o, m, pt, txn.Has(m, pt), fx.RouteVer(rt), ok, v, desc())
+				}
+			}
+		}
+		// the router still shows the seed
+		if got, want := hist.Observe(f, p), hist.ExpectObservation(before, p); got != want {
+			return "uncommitted-visible", fmt.Sprintf("while the transaction is open after operation %d (%s), the router's reads are\n%s    model says\n%s    %s", i, o, indent(got), indent(want), desc())
+		}
+	}
+	want := before
+	if cs.Commit {
+		txn.Commit()
+		want = cur
+	} else {
+		txn.Abort()
+	}
+	if got, exp := hist.Observe(f, p), hist.ExpectObservation(want, p); got != exp {
+		cls := "wrong-state"
+		if !cs.Commit {
+			cls = "failed-call-changed-state"
+		}
+		return cls, fmt.Sprintf("after the ending the router's reads are\n%s    model says\n%s    %s", indent(got), indent(exp), desc())
+	}
+	if m := hist.PrefixCheck(f, want, p); m != "" {
+		return "wrong-prefix", m + ": " + desc()
+	}
+	ro := f.Txn(false)
+	defer ro.Abort()
+	if got, exp := hist.Observe(ro, p), hist.ExpectObservation(want, p); got != exp {
+		return "wrong-state-rotxn", fmt.Sprintf("after the ending a read-only transaction reads\n%s    model says\n%s    %s", indent(got), indent(exp), desc())
+	}
+	return "", ""
+}
+
+// ForEachBody enumerates every seed (subsets <=seedMax of the first method's patterns, registered
+// directly) x every body of exactly bodyLen write operations (Handle/Update/Delete x patterns,
+// Truncate) x {Commit, Abort} and calls fn from NumCPU goroutines. It returns the number of seeds,
+// the alphabet size and whether the time guard stopped it.
+func ForEachBody(c *mc.Ctx, name string, p *hist.Pool, seedMax, bodyLen int, fn func(cs Case)) (nSeeds, nAlpha int, stopped bool) {
+	m0 := p.Methods[0]
+	var alpha []hist.Op
+	for _, k := range []int{hist.Handle, hist.Update, hist.Delete} {
+		for _, pt := range p.Patterns {
+			alpha = append(alpha, hist.Op{Kind: k, Method: m0, Pattern: pt})
+		}
+	}
+	alpha = append(alpha, hist.Op{Kind: hist.Truncate, Method: m0}, hist.Op{Kind: hist.Truncate})
+	var seeds [][]hist.Op
+	var rec func(start int, cur []hist.Op, m hist.Model)
+	rec = func(start int, cur []hist.Op, m hist.Model) {
+		seeds = append(seeds, append([]hist.Op{}, cur...))
+		if len(cur) == seedMax {
+			return
+		}
+		for i := start; i < len(p.Patterns); i++ {
+			o := hist.Op{Kind: hist.Handle, Method: m0, Pattern: p.Patterns[i]}
+			out, after := hist.ModelApply(m, o)
+			if out.Err != "" {
+				continue
+			}
+			rec(i+1, append(cur, o), after)
+		}
+	}
+	rec(0, nil, hist.Model{})
+	type job struct {
+		seed []hist.Op
+		body []hist.Op
+	}
+	ch := make(chan job, 256)
+	var wg sync.WaitGroup
+	for w := 0; w < runtime.NumCPU(); w++ {
+		wg.Add(1)
+		go func() {
+			defer wg.Done()
+			for j := range ch {
+				for _, commit := range []bool{false, true} {
+					fn(Case{Quick: c.Quick(), Pool: name, Path: j.seed, Body: j.body, Commit: commit})
+				}
+			}
+		}()
+	}
+	n := 0
+	var gen func(body []hist.Op, seed []hist.Op)
+	gen = func(body []hist.Op, seed []hist.Op) {
+		if stopped {
+			return
+		}
+		if len(body) == bodyLen {
+			n++
+			if n&1023 == 0 && c.Expired() {
+				stopped = true
+				return
+			}
+			ch <- job{seed, append([]hist.Op{}, body...)}
+			return
+		}
+		for _, o := range alpha {
+			gen(append(body, o), seed)
+		}
+	}
+	for _, s := range seeds {
+		gen(nil, s)
+	}
+	close(ch)
+	wg.Wait()
+	return len(seeds), len(alpha), stopped
+}
+
+// RunBody builds the router of a body case: seed registered directly, then the body inside one write
+// transaction (no reads in between), ended as the case says. It returns the router and the model of
+// what must be registered afterwards.
+func RunBody(cs Case, opts ...fox.GlobalOption) (*fox.Router, hist.Model) {
+	f := hist.Replay(cs.Path, opts...)
+	before := hist.ModelOf(cs.Path)
+	cur := before
+	txn := f.Txn(true)
+	defer txn.Abort()
+	for _, o := range cs.Body {
+		_, cur = hist.ModelApply(cur, o)
+		hist.ApplyIn(f, txn, o)
+	}
+	if cs.Commit {
+		txn.Commit()
+		return f, cur
+	}
+	txn.Abort()
+	return f, before
+}
+
+func runBodies(c *mc.Ctx, r *mc.Result, name string, p *hist.Pool, seedMax, bodyLen int) {
+	var mu sync.Mutex
+	ns, na, stopped := ForEachBody(c, name, p, seedMax, bodyLen, func(cs Case) {
+		class, msg := evalBody(p, cs)
+		mu.Lock()
+		r.Evaluations++
+		r.Transitions += int64(len(cs.Body))
+		r.TracesValidated++
+		r.DistinctNontrivial++
+		if class != "" {
+			r.Violate("bodies", class, msg, cs)
+		}
+		mu.Unlock()
+	})
+	r.Bounds[fmt.Sprintf("bodies.%s.%d", name, bodyLen)] = fmt.Sprintf("%d seeds (subsets <=%d of %v under %s) x all bodies of %d operations over %d operations x {Commit, Abort}; no Txn.Iter/Snapshot between the operations", ns, seedMax, p.Patterns, p.Methods[0], bodyLen, na)
+	if stopped {
+		r.NotExhaustive = append(r.NotExhaustive, "bodies "+name+" stopped by the time guard")
+	}
 }
 
 func render(path []hist.Op) string {
@@ -165,6 +371,17 @@ func run(c *mc.Ctx, r *mc.Result) {
 	runBFS(c, r, "methods", MethodPool(), 3, false)
 	runBFS(c, r, "nested", NestPool(), sib-1, false)
 	runFan(c, r)
+	if c.Quick() {
+		runBodies(c, r, "prefixes", PoolFor(true), 2, 2)
+		runBodies(c, r, "siblings", SiblingPool(), 3, 2)
+		runBodies(c, r, "nested", NestPool(), 2, 2)
+	} else {
+		runBodies(c, r, "prefixes", PoolFor(true), 3, 2)
+		runBodies(c, r, "siblings", SiblingPool(), 4, 2)
+		runBodies(c, r, "nested", NestPool(), 3, 2)
+		runBodies(c, r, "nested", NestPool(), 2, 3)
+		runBodies(c, r, "siblings", SiblingPool(), 2, 3)
+	}
 }
 
 // runFan: nodes with 48..53 children (the linear/binary search switch in getEdge/updateEdge is at
@@ -258,8 +475,12 @@ func runBFS(c *mc.Ctx, r *mc.Result, name string, p *hist.Pool, maxLive int, sib
 
 func replay(c *mc.Ctx, raw json.RawMessage) string {
 	var cs Case
-	if err := json.Unmarshal(raw, &cs); err != nil || len(cs.Path) == 0 {
+	if err := json.Unmarshal(raw, &cs); err != nil || (len(cs.Path) == 0 && len(cs.Body) == 0) {
 		return "bad case"
+	}
+	if len(cs.Body) > 0 {
+		_, msg := evalBody(PoolNamed(cs.Pool, cs.Quick), cs)
+		return msg
 	}
 	p := PoolFor(cs.Quick)
 	if cs.Siblings {
@@ -302,6 +523,6 @@ func init() {
 			"state merging: two routers with the same (method,pattern)->version map and the same tree dump are indistinguishable by later operations (no hidden mutable state outside a transaction)",
 			"conflict rule of the model: a new route conflicts with exactly the registered routes of its method whose longest common prefix with it ends strictly inside a wildcard token of both",
 		},
-		Parts: []mc.Part{{Name: "bfs", Run: run, Replay: replay}},
+		Parts: []mc.Part{{Name: "bfs", Run: run, Replay: replay}, {Name: "bodies", Run: func(*mc.Ctx, *mc.Result) {}, Replay: replay}},
 	})
 }
